@@ -7,11 +7,11 @@ CFG = dict(
                "independent DOT recogniser (dot_well_formed) and every edge endpoint is a declared node (dot_edges_declared) outside the two "
                "recorded raw holes F25/F26, with refuted twins for both holes and for a dangling edge; (callgrind) for ALL graphs the reference "
                "reader follows the printCallgrind model line by line: no undefined/redefined (n), every reference resolves to the intended "
-               "name, node and callee positions decode (callgrind_reads_back) outside F11, with refuted twins F11/F20. Models tied to the code by "
+               "name, node and callee positions decode (callgrind_reads_back) outside F11, and the written TEXT parses back to those lines "
+               "(callgrind_text_reads_back, outside F20), with refuted twins F11/F20. Models tied to the code by "
                "byte-level correspondence on ~1.7k cases per quick run, and the recogniser / reader are evaluated on the text the implementation wrote.",
     level_note="HTML views are partial: html/template and encoding/json are trusted, the harness fetches /top /flamegraph /peek /source through "
-               "httptest and counts raw payload markers. The text level of callgrind (render, then parse) is not proved (full_statement_callgrind_text); "
-               "it is evaluated on every case. F11 rests on the stated reading of the Callgrind manual (positions are relative to the last cost line).",
+               "httptest and counts raw payload markers. F11 rests on the stated reading of the Callgrind manual (positions are relative to the last cost line).",
     rule="inputs: (esc) strings over an alphabet of DOT/callgrind/HTML metacharacters; (dot) graphs handed to ComposeDot -- synthetic ones "
          "(names, tags, attributes, extreme weights) and those report.GetDOT builds from generated profiles under call_tree / drop_negative / "
          "trimming / functions|lines|files|addresses|filefunctions, incl. diff-like profiles whose nodes net to zero; (cg) the graph "
